@@ -922,10 +922,14 @@ func (g *gen) needRunes() {}
 
 func (g *gen) rangePos(e *env) string {
 	// the iterator of the innermost enclosing loop that has one
+	var best *loopInfo
 	for _, li := range g.loops {
-		if li.rangeIt != nil && li.body[g.curBlock] {
-			return g.heapVar(e.st, g.iterVar(li.rangeIt), "Int")
+		if li.rangeIt != nil && li.body[g.curBlock] && (best == nil || len(li.body) < len(best.body)) {
+			best = li
 		}
+	}
+	if best != nil {
+		return g.heapVar(e.st, g.iterVar(best.rangeIt), "Int")
 	}
 	g.fail("rangepos(): no range loop here")
 	return ""
